@@ -389,13 +389,9 @@ func (idx *Index) FitToBounds(bounds *dvid.OptionalBounds) error {
 	for zyx := range idx.Blocks {
 		x, y, z := DecodeBlockIndex(zyx)
 		blockPt := dvid.ChunkPoint3d{x, y, z}
-		if bounds.BeyondZ(blockPt) {
-			break
-		}
 		if bounds.Outside(blockPt) {
-			continue
+			delete(idx.Blocks, zyx) // keep only the blocks within the bounds
 		}
-		delete(idx.Blocks, zyx)
 	}
 	return nil
 }
